@@ -151,7 +151,7 @@ Lemma rd_step_hdr r rest d : rec_canonical r = true ->
   rd_step bytes take io_err (hdr_of r ++ rest) d = after_hdr r rest d.
 Proof.
   intro Hc. destruct (canonical_facts r Hc) as [Ht [Hn _]].
-  unfold hdr_of, rd_step. cbn [app]. rewrite take4_cons.
+  unfold hdr_of, rd_step, has_critical, clear_critical. cbn [app]. rewrite take4_cons.
   change (be16 [?a; ?b; ?c; ?e]) with (a * 256 + b). change (be16 (skipn 2 [?a; ?b; ?c; ?e])) with (c * 256 + e).
   destruct (hdr_type (r_type r) (r_crit r) Ht) as [E1 E2]. cbv zeta in E1, E2.
   rewrite E1, E2, (hdr_len _ Hn). reflexivity.
@@ -976,7 +976,7 @@ Qed.
 Lemma pack_wire t c body : 0 <= t < 32768 -> Z.of_nat (length body) < 65536 ->
   pack t c body = wire_rec {| r_type := t; r_crit := c; r_body := body |}.
 Proof.
-  intros Ht Hn. unfold pack, hdr, wire_rec. cbn [r_type r_crit r_body app]. f_equal; [|f_equal; [|f_equal]].
+  intros Ht Hn. unfold pack, hdr, wire_rec, set_critical. cbn [r_type r_crit r_body app]. f_equal; [|f_equal; [|f_equal]].
   - destruct c; lia.
   - destruct c; lia.
   - f_equal. lia.
